@@ -70,6 +70,14 @@ def make_variant(m: Dict, repo: str = REPO) -> Optional[str]:
             shutil.copyfile(os.path.join(repo, rel), dst)
         path = os.path.join(tmp, PKG, m["file"])
         src = open(path).read()
+        if m["old"] is None and m["id"] == "ok-rename-propagator":
+            # rename a function in every library file
+            for rel in library_files(repo):
+                pth = os.path.join(tmp, rel)
+                txt = open(pth).read()
+                if "update_exiting" in txt:
+                    open(pth, "w").write(txt.replace("update_exiting", "propagate_to_exiting_block"))
+            return tmp
         if m["old"] is None:
             new = _rename_locals(src, "loop_restructure_helper")
         else:
